@@ -426,6 +426,8 @@ type concResult struct {
 	CleanSawTemp  int           `json:"clean_started_while_temp_visible"`
 	StoresDone    int           `json:"stores"`
 	EvictedOthers int           `json:"unprotected_evicted"`
+	RetrievedMid  int           `json:"retrieved_during_clean"`
+	RetrieveLate  int           `json:"retrieve_after_eviction"`
 	Findings      []concFinding `json:"findings"`
 }
 
@@ -480,6 +482,21 @@ func TestC14Child(t *testing.T) {
 		under.Store(tgt, key0, set0.Outs)
 		prot := snap(under.Path(tgt, key0))
 
+		// an entry of another process ("victim") that this process retrieves while Clean is evicting: it is
+		// not marked when the cleaner walks the cache, becomes marked by the Retrieve, and must survive.
+		// The other unprotected entries are aged so that the cleaner (LRU) gets to them first.
+		tgtV := cachelib.Target(fmt.Sprintf("//cv%d:t", round))
+		setV := outSetOf(rng, 1500)
+		keyV := cachelib.Key(fmt.Sprint("victim", round), 20)
+		cachelib.Materialize(cachelib.OutDir(j.Root, tgtV), setV)
+		other.Store(tgtV, keyV, setV.Outs)
+		victim := other.Path(tgtV, keyV)
+		victimBefore := snap(victim)
+		aged := time.Now().Add(-30 * 24 * time.Hour)
+		for _, o := range olds {
+			os.Chtimes(o.path, aged, aged)
+		}
+
 		set := outSetOf(rng, 1000+rng.Intn(20000))
 		key := cachelib.Key(fmt.Sprint("new", round), 20)
 		cachelib.Materialize(cachelib.OutDir(j.Root, tgt), set)
@@ -493,11 +510,28 @@ func TestC14Child(t *testing.T) {
 			temp = strings.TrimSuffix(final, ".tar.gz") + "=.tar.gz"
 		}
 		var wg sync.WaitGroup
-		wg.Add(2)
+		wg.Add(3)
 		go func() {
 			defer wg.Done()
 			under.Store(tgt, key, set.Outs)
 			res.StoresDone++
+		}()
+		retrievedVictim := false
+		go func() {
+			defer wg.Done()
+			// wait until the cleaner has started evicting (one of the aged entries is gone), then retrieve
+			started := false
+			for spin := 0; spin < 400000 && !started; spin++ {
+				for _, o := range olds {
+					if !exists(o.path) {
+						started = true
+					}
+				}
+				if !started && spin > 1000 {
+					time.Sleep(20 * time.Microsecond)
+				}
+			}
+			retrievedVictim = under.Retrieve(tgtV, keyV, setV.Outs)
 		}()
 		sawTemp := false
 		go func() {
@@ -531,6 +565,17 @@ func TestC14Child(t *testing.T) {
 				w["diff"] = lib.Diff(want, got)
 				add(round, fmt.Sprintf("inflight-store-damaged/%s/%s", mode, state), "an entry stored while Clean was running is retrieved incomplete", w)
 			}
+		}
+		if retrievedVictim {
+			// This process retrieved the entry (a hit) while Clean was running: Clean must not have removed it.
+			res.RetrievedMid++
+			if after := snap(victim); after == nil {
+				add(round, "retrieved-during-clean-evicted/"+mode, "an entry retrieved by this process while Clean was running does not exist after both finished", w)
+			} else if len(lib.Diff(victimBefore, after)) > 0 {
+				add(round, "partial-removal/"+mode+"/retrieved-during-clean", "Clean removed part of an entry that this process retrieved while it was running", w)
+			}
+		} else {
+			res.RetrieveLate++
 		}
 		if after := snap(under.Path(tgt, key0)); after == nil || len(lib.Diff(prot, after)) > 0 {
 			add(round, "protected-entry-removed/"+mode+"/concurrent", "Clean removed or altered an entry stored earlier by this process while another Store was running", w)
@@ -572,6 +617,8 @@ func runConc(r *lib.Run, base string, idx int, rng *rand.Rand) {
 	r.Obs("concurrent_clean_started_while_store_temp_visible", int64(cr.CleanSawTemp))
 	r.Obs("concurrent_stores", int64(cr.StoresDone))
 	r.Obs("concurrent_unprotected_evicted", int64(cr.EvictedOthers))
+	r.Obs("concurrent_retrieved_during_clean", int64(cr.RetrievedMid))
+	r.Obs("concurrent_retrieve_lost_race_to_eviction", int64(cr.RetrieveLate))
 	r.Case(fmt.Sprintf("conc/%v/%d", held, j.Seed), cr.Rounds >= 2)
 	for _, f := range cr.Findings {
 		r.Violation(f.Key, f.What, f.Witness, idx)
